@@ -70,9 +70,18 @@ def _append(st, key, n):
     st.bufs[key] = (c, nl if nl is not None else TOP)
 
 
+def _oblige(I, st, t, site, what, need, have, body=None):
+    """record a precondition `have >= need` of a bytes call (it panics otherwise)"""
+    d = I.decide_cmp(st, "Ge", have, need, "usize")
+    status = "safe" if d is True else ("panics" if d is False else "unknown")
+    st.events.append(Event("obligation", "precondition:" + what, [what, None, have, need, "usize"], site, t.span, tuple(I.ctx), extra={"status": status, "body": site[0]}))
+    return status
+
+
 def m_get(I, st, t, args, site, depth):
     w = GET_WIDTH[t.callee.name]
     key = buf_key(I, st, args[0])
+    _oblige(I, st, t, site, t.callee.name, w, buf_len(st, key))
     off = _consume(st, key, w)
     res = ("bufread", key, tform(off), w)
     st.events.append(Event("buf", t.callee.name, [key, off, w], site, t.span, tuple(I.ctx), res, extra={"op": "read", "buf": key, "offset": off, "width": w, "remaining_before": lin_add(buf_state(st, key)[1], off, -1)}))
@@ -82,6 +91,7 @@ def m_get(I, st, t, args, site, depth):
 def m_split_to(I, st, t, args, site, depth):
     key = buf_key(I, st, args[0])
     n = args[1]
+    _oblige(I, st, t, site, "split_to", n, buf_len(st, key))
     off = _consume(st, key, n)
     res = ("bufslice", key, tform(off), tform(n))
     st.events.append(Event("buf", "split_to", [key, off, n], site, t.span, tuple(I.ctx), res, extra={"op": "read", "buf": key, "offset": off, "width": n, "remaining_before": lin_add(buf_state(st, key)[1], off, -1)}))
@@ -91,6 +101,7 @@ def m_split_to(I, st, t, args, site, depth):
 def m_advance(I, st, t, args, site, depth):
     key = buf_key(I, st, args[0])
     n = args[1]
+    _oblige(I, st, t, site, "advance", n, buf_len(st, key))
     off = _consume(st, key, n)
     st.events.append(Event("buf", "advance", [key, off, n], site, t.span, tuple(I.ctx), None, extra={"op": "skip", "buf": key, "offset": off, "width": n, "remaining_before": lin_add(buf_state(st, key)[1], off, -1)}))
     return [(st, TupleV([]))]
@@ -121,6 +132,7 @@ def m_clear(I, st, t, args, site, depth):
 def m_split_off(I, st, t, args, site, depth):
     key = buf_key(I, st, args[0])
     at = args[1]
+    _oblige(I, st, t, site, "split_off", at, buf_len(st, key))
     c, l0 = buf_state(st, key)
     tail_len = lin_add(buf_len(st, key), at, -1)
     res = ("buftail", key, tform(c), tform(at))
